@@ -39,10 +39,23 @@ const (
 	stRenum
 	stClosed
 	stClosedPre
+	// stdio states (all on top of "open"): a standard stream closed, all of
+	// them closed, stdin renumbered away (wazero refuses to renumber pre-opens:
+	// ENOTSUP is tolerated and leaves the state at "open"), stdin replaced by a
+	// regular file (fd_close(0) then path_open hands out 0)
+	stNoStdin
+	stNoStdout
+	stNoStderr
+	stNoStdio
+	stStdinMoved
+	stStdinReplaced
 	nStates
 )
 
-var stateNames = []string{"fresh", "open", "renumbered", "closed", "closed-preopen"}
+const nBaseStates = stClosedPre + 1
+
+var stateNames = []string{"fresh", "open", "renumbered", "closed", "closed-preopen",
+	"stdin-closed", "stdout-closed", "stderr-closed", "stdio-closed", "stdin-renumbered-away", "stdin-replaced-by-file"}
 
 const (
 	mtDir = iota
@@ -58,6 +71,16 @@ var mountNames = []string{"dir", "readonly-dir", "fs.FS(MapFS)", "fs.FS(os.DirFS
 type callSpec struct {
 	Fn   string   `json:"fn"`
 	Args []uint64 `json:"args"`
+	// Patch is written over the memory template before the call (structured
+	// generators build their input arrays there); Note describes it.
+	Patch []memPatch `json:"patch,omitempty"`
+	Note  string     `json:"note,omitempty"`
+	Shape string     `json:"shape,omitempty"` // coarse class of the structured input (evidence)
+}
+
+type memPatch struct {
+	At   uint32 `json:"at"`
+	Data []byte `json:"data"`
 }
 
 type caseSpec struct {
@@ -105,7 +128,8 @@ type caseResult struct {
 	MaxSys       uint64         `json:"max_sys"`
 	SysSuspects  int            `json:"sys_suspects,omitempty"`
 	Reinst       int            `json:"reinst"`
-	Setup        string         `json:"setup,omitempty"` // non-empty: set-up problem (inconclusive)
+	Structured   int            `json:"structured,omitempty"` // calls with generator-built input arrays
+	Setup        string         `json:"setup,omitempty"`      // non-empty: set-up problem (inconclusive)
 	List         []callSpec     `json:"list,omitempty"`
 	Sample       string         `json:"sample,omitempty"`
 }
@@ -224,6 +248,22 @@ type runner struct {
 	in    *inst
 	res   *caseResult
 	dirty bool // the host tree may have been modified since it was made
+	cur   *callSpec
+}
+
+// image is the guest memory the current call starts from: the template plus
+// the call's own patches.
+func (r *runner) image() []byte {
+	if r.cur == nil || len(r.cur.Patch) == 0 {
+		return r.tmpl
+	}
+	m := append([]byte(nil), r.tmpl...)
+	for _, p := range r.cur.Patch {
+		if int(p.At) < len(m) {
+			copy(m[p.At:], p.Data)
+		}
+	}
+	return m
 }
 
 const f0Content = "F0: the quick brown fox jumps over the lazy dog; 0123456789 ABCDEFGHIJKLMNOPQRSTUVWXYZ abcdefghijkl\n"
@@ -396,6 +436,23 @@ func (r *runner) instantiate() error {
 		must("fd_close", 1)
 	case stClosedPre:
 		must("fd_close", 3)
+	case stNoStdin:
+		must("fd_close", 0)
+	case stNoStdout:
+		must("fd_close", 1)
+	case stNoStderr:
+		must("fd_close", 2)
+	case stNoStdio:
+		must("fd_close", 0)
+		must("fd_close", 1)
+		must("fd_close", 2)
+	case stStdinMoved:
+		if errno := in.wcall("fd_renumber", 0, 9+next-4); errno != 0 && errno != 58 { // ENOTSUP: pre-opens cannot be renumbered
+			problems = append(problems, "fd_renumber(0,9)="+wasip1.ErrnoName(errno))
+		}
+	case stStdinReplaced:
+		must("fd_close", 0)
+		open(aF0, 2, 0, 0, 0)
 	}
 	if cs.Mount == mtSock {
 		// listener non-blocking, one accepted non-blocking connection with data
@@ -440,7 +497,7 @@ func (r *runner) instantiate() error {
 	// shadow table from what is actually there
 	for _, fd := range r.scanSet(nil) {
 		if ok, info := r.probe(fd); ok {
-			if errno := in.wcall("fd_prestat_get", uint64(fd), aScratch); errno == 0 || fd <= 2 {
+			if errno := in.wcall("fd_prestat_get", uint64(fd), aScratch); errno == 0 || (fd <= 2 && info.Ftype != 3 && info.Ftype != 4 && info.Ftype != 6) {
 				info.Preopen = true
 			}
 			if cs.Mount == mtSock && fd == 4 {
@@ -559,7 +616,13 @@ func (r *runner) addFinding(sig, detail string, f *fnSpec, args []uint64, extra 
 			return
 		}
 	}
-	fd := finding{Sig: sig, Detail: detail, Call: callSpec{f.name, append([]uint64(nil), args...)}, Text: fmtArgs(f, pnames[f.name], args), Extra: extra}
+	fd := finding{Sig: sig, Detail: detail, Call: callSpec{Fn: f.name, Args: append([]uint64(nil), args...)}, Text: fmtArgs(f, pnames[f.name], args), Extra: extra}
+	if r.cur != nil && r.cur.Fn == f.name {
+		fd.Call.Patch, fd.Call.Note = r.cur.Patch, r.cur.Note
+		if r.cur.Note != "" {
+			fd.Text += " with " + r.cur.Note
+		}
+	}
 	if n := len(r.in.hist); n > 1 {
 		fd.Prefix = append([]callSpec(nil), r.in.hist[:n-1]...)
 	}
@@ -630,12 +693,17 @@ func hugeArg(f *fnSpec, args []uint64) string {
 func (r *runner) doCall(f *fnSpec, args []uint64) {
 	in := r.in
 	res := r.res
-	in.hist = append(in.hist, callSpec{f.name, args})
+	if r.cur != nil && r.cur.Fn == f.name {
+		in.hist = append(in.hist, *r.cur)
+	} else {
+		in.hist = append(in.hist, callSpec{Fn: f.name, Args: args})
+	}
+	before := r.image()
 	if (r.cs.Mount == mtDir || r.cs.Mount == mtSock) && f.dirties() {
 		r.dirty = true
 	}
-	in.mem.Write(0, r.tmpl)
-	allowed := f.allowedWrites(args, r.tmpl, &r.e)
+	in.mem.Write(0, before)
+	allowed := f.allowedWrites(args, before, &r.e)
 	fn := in.fn(f.name)
 
 	runtime.ReadMemStats(&memStat[0])
@@ -644,7 +712,12 @@ func (r *runner) doCall(f *fnSpec, args []uint64) {
 
 	res.Calls++
 	res.PerFn[f.name]++
-	res.Buckets[f.name+"|"+f.bucketKey(args, &r.e)]++
+	if r.cur != nil && r.cur.Shape != "" {
+		res.Buckets[f.name+"|"+f.bucketKey(args, &r.e)+"|"+r.cur.Shape]++
+		res.Structured++
+	} else {
+		res.Buckets[f.name+"|"+f.bucketKey(args, &r.e)]++
+	}
 
 	// (1) outcome class
 	outcome := ""
@@ -701,17 +774,17 @@ func (r *runner) doCall(f *fnSpec, args []uint64) {
 	res.Outcome[outcome]++
 
 	// (2) guest memory: whole-memory diff against the allowed write set
-	if after, ok := in.mem.Read(0, uint32(len(r.tmpl))); ok {
+	if after, ok := in.mem.Read(0, uint32(len(before))); ok {
 		res.MemChecks++
-		if lo, hi, ok := strayWrites(r.tmpl, after, allowed); !ok {
+		if lo, hi, ok := strayWrites(before, after, allowed); !ok {
 			cls := "on-error"
 			if errno == 0 {
 				cls = "on-success"
 			}
 			r.addFinding(f.name+":stray-write:"+lenClass(f, args, &r.e)+cls, fmt.Sprintf("bytes [%#x,%#x) of guest memory (size %#x) changed outside the allowed write set %v: before %x after %x; outcome %s",
-				lo, hi, len(r.tmpl), fmtIntervals(allowed), r.tmpl[lo:hi], after[lo:hi], outcome), f, args,
+				lo, hi, len(before), fmtIntervals(allowed), before[lo:hi], after[lo:hi], outcome), f, args,
 				map[string]any{"allowed": fmtIntervals(allowed), "stray": [2]int{lo, hi}})
-		} else if len(allowed) > 0 && string(after) != string(r.tmpl) {
+		} else if len(allowed) > 0 && string(after) != string(before) {
 			res.MemWritten++
 		}
 	} else if !in.closed {
@@ -777,7 +850,7 @@ func (r *runner) confirmSys(f *fnSpec, args []uint64, limit uint64) bool {
 		return false
 	}
 	in := r.in
-	in.mem.Write(0, r.tmpl)
+	in.mem.Write(0, r.image())
 	fn := in.fn(f.name)
 	runtime.GC()
 	runtime.ReadMemStats(&memStat[0])
@@ -931,6 +1004,8 @@ func runCase(cs *caseSpec) *caseResult {
 				return res
 			}
 		}
+		cc := c
+		r.cur = &cc
 		r.doCall(f, c.Args)
 	}
 	if len(calls) > 0 {
@@ -953,19 +1028,19 @@ func expandCalls(cs *caseSpec, e *genEnv) []callSpec {
 	case "product":
 		vs := valueSets(fixed, e)
 		for i := cs.Lo; i < cs.Hi && i < productCount(vs); i++ {
-			calls = append(calls, callSpec{fixed.name, productTuple(vs, i)})
+			calls = append(calls, callSpec{Fn: fixed.name, Args: productTuple(vs, i)})
 		}
 	case "pairs":
 		vs := valueSets(fixed, e)
 		all := pairTuples(fixed, vs, cs.Seed)
 		for i := cs.Lo; i < cs.Hi && i < len(all); i++ {
-			calls = append(calls, callSpec{fixed.name, all[i]})
+			calls = append(calls, callSpec{Fn: fixed.name, Args: all[i]})
 		}
 	case "prng":
 		vs := valueSets(fixed, e)
 		rng := core.NewRng(int64(cs.Seed), 151)
 		for i := 0; i < cs.Hi; i++ {
-			calls = append(calls, callSpec{fixed.name, prngTuple(fixed, vs, rng, 30, false)})
+			calls = append(calls, callSpec{Fn: fixed.name, Args: prngTuple(fixed, vs, rng, 30, false)})
 		}
 	case "mix":
 		rng := core.NewRng(int64(cs.Seed), 152)
@@ -974,7 +1049,12 @@ func expandCalls(cs *caseSpec, e *genEnv) []callSpec {
 			if f.name == "proc_exit" && !rng.Chance(1, 20) {
 				f = tableByName["fd_renumber"]
 			}
-			calls = append(calls, callSpec{f.name, prngTuple(f, valueSets(f, e), rng, 55, true)})
+			calls = append(calls, callSpec{Fn: f.name, Args: prngTuple(f, valueSets(f, e), rng, 55, true)})
+		}
+	case "pollstruct":
+		rng := core.NewRng(int64(cs.Seed), 153)
+		for i := 0; i < cs.Hi; i++ {
+			calls = append(calls, structuredPoll(rng, e))
 		}
 	}
 	return calls
